@@ -130,11 +130,21 @@ End Forward.
 Definition zero_mac (_ _ : bytes) : bytes := [].
 
 Definition c05_case (is_admin : Z) (now : bytes) (key_value key_guid : option bytes)
-           (m path : bytes) (q : option bytes) (wire : list (bytes * bytes)) :=
+           (m path : bytes) (q : option bytes) (wire : list (bytes * bytes)) (body : bytes) :=
   let a := {| a_logon_id := 0; a_process_id := 0; a_is_admin := is_admin;
               a_destination_ipv4 := 0; a_destination_port := 0 |} in
-  let c := {| c_method := m; c_uri := {| u_path := path; u_query := q |}; c_wire := wire; c_body := [] |} in
+  let u := {| u_path := path; u_query := q |} in
+  let c := {| c_method := m; c_uri := u; c_wire := wire; c_body := body |} in
   match proxy_forward zero_mac a now key_value key_guid c with
-  | Forwarded out => Some (r_headers out, is_signed key_value key_guid c)
+  | Forwarded out =>
+      Some (r_headers out, is_signed key_value key_guid c,
+            (* the string the proxy MACs when it signs: the request with the two required
+               headers in place (HeadersProofs.auth_replaced_when_signed) *)
+            if is_signed key_value key_guid c then
+              match add_required_headers (run_as_elevated a) now (of_wire wire) with
+              | Some hs => as_sig_input m body hs u
+              | None => []
+              end
+            else [])
   | BadGateway => None
   end.
